@@ -29,3 +29,32 @@ package ipdict
 //@   ensures[a_hit_is_a_single_address_or_inside_a_range] t.ipItems != nil && result0 ==> hsHas16(t.ipItems.ipSet, ipVal(srcIP)) || inSomeRange(t.ipItems.items, ipVal(srcIP))
 //@   ensures[a_loaded_single_address_is_contained] t.ipItems != nil && (len(srcIP) == 4 || len(srcIP) == 16) && hsHas16(t.ipItems.ipSet, ipVal(srcIP)) ==> result0
 //@   ensures[an_address_inside_a_range_is_contained] t.ipItems != nil && (len(srcIP) == 4 || len(srcIP) == 16) && inSomeRange(t.ipItems.items, ipVal(srcIP)) ==> result0
+
+//@ func (*IPItems).checkMerge
+//@   props C19
+//@   nopanic
+//@   requires ipItems != nil && 0 <= i && i < j && j < len(ipItems.items)
+//@   modifies ipItems.items[..]
+//@   ensures[counts_only_what_it_zeroes] 0 <= result0 && result0 <= j - i
+//@   loop 1 invariant[cursor] i + 1 <= k && k <= j && 1 <= mergedNum && mergedNum <= k - i
+
+//@ func (*IPItems).mergeItems
+//@   props C19
+//@   nopanic
+//@   requires ipItems != nil
+//@   modifies ipItems.items[..]
+//@   loop 1 invariant[outer_cursor] 0 <= i
+//@   loop 2 invariant[inner_cursor] 0 <= i && i < length - 1 && i + 1 <= j
+//@   loop 3 invariant[covered_cursor] 0 <= i && i < length - 1 && i + 1 <= k && k <= j && j < length
+
+//@ func (ipPairs).Less
+//@   props C19
+//@   nopanic
+//@   requires 0 <= i && i < len(items) && 0 <= j && j < len(items)
+//@   modifies nothing
+
+//@ func (ipPairs).Swap
+//@   props C19
+//@   nopanic
+//@   requires 0 <= i && i < len(items) && 0 <= j && j < len(items)
+//@   modifies items[..]
